@@ -391,6 +391,78 @@ fn cursor_state_json(generation: u32, returned: u64) -> String {
     .to_string()
 }
 
+fn unhex(s: &str) -> Option<Vec<u8>> {
+  if s.len() % 2 != 0 || !s.is_ascii() {
+    return None;
+  }
+  (0..s.len() / 2).map(|i| u8::from_str_radix(&s[2 * i..2 * i + 2], 16).ok()).collect()
+}
+
+/// A genuine next_cursor with one field changed while version, generation and plan hash stay
+/// valid: type tags of the sort values, value types, number of values, positions.
+fn tamper_cursor(cursor: &str, case_no: u64) -> String {
+  let Some(bytes) = unhex(cursor) else { return cursor.to_string() };
+  if let Ok(mut v) = serde_json::from_slice::<Value>(&bytes) {
+    let n = v["values"].as_array().map(|a| a.len()).unwrap_or(0);
+    let which = (case_no / 8) as usize % n.max(1);
+    match case_no % 8 {
+      0 | 1 if n > 0 => {
+        // another type tag, same payload where the payload type allows it
+        let val = &mut v["values"][which];
+        let t = val["t"].as_str().unwrap_or("").to_string();
+        let (nt, nv) = match (t.as_str(), case_no % 8) {
+          ("i64", 0) => ("f64", json!(1.5)),
+          ("i64", _) => ("str", json!("x")),
+          ("f64", 0) => ("i64", json!(3)),
+          ("f64", _) => ("score", json!(1065353216u32)),
+          ("str", 0) => ("i64", json!(3)),
+          ("str", _) => ("f64", json!(0.25)),
+          ("score", 0) => ("i64", json!(3)),
+          ("score", _) => ("str", json!("x")),
+          (_, 0) => ("i64", json!(3)),
+          _ => ("str", json!("x")),
+        };
+        *val = json!({"t": nt, "v": nv});
+      }
+      2 if n > 0 => {
+        v["values"][which] = json!({"t": "missing"});
+      }
+      3 => {
+        if let Some(a) = v["values"].as_array_mut() {
+          a.pop();
+        }
+      }
+      4 => {
+        if let Some(a) = v["values"].as_array_mut() {
+          a.push(json!({"t": "i64", "v": 1}));
+        }
+      }
+      5 => {
+        v["segment_ord"] = json!(4_000_000_000u32);
+        v["doc_id"] = json!(4_000_000_000u32);
+      }
+      6 if n > 0 => {
+        v["values"][which] = json!({"t": "f64", "v": 1e308});
+      }
+      _ => {
+        v["returned"] = json!(49_999);
+      }
+    }
+    return hex(v.to_string().as_bytes());
+  }
+  // the fixed-length score cursor: version(1) generation(4) score bits(4) segment(4) doc(4) returned(4)
+  let mut b = bytes;
+  if b.len() == 21 {
+    match case_no % 4 {
+      0 => b[5..9].copy_from_slice(&f32::NAN.to_bits().to_be_bytes()),
+      1 => b[9..13].copy_from_slice(&u32::MAX.to_be_bytes()),
+      2 => b[13..17].copy_from_slice(&u32::MAX.to_be_bytes()),
+      _ => b[5..9].copy_from_slice(&f32::NEG_INFINITY.to_bits().to_be_bytes()),
+    }
+  }
+  hex(&b)
+}
+
 fn hex(bytes: &[u8]) -> String {
   bytes.iter().map(|b| format!("{b:02x}")).collect()
 }
@@ -554,6 +626,10 @@ fn instantiate(ctx: &mut Ctx, idx: usize, cls: &Value, case_no: u64) -> std::res
     } else {
       hex(cursor_state_json(generation, 60_000).as_bytes())
     }),
+    "valid_tampered" => {
+      let c = page1_cursor(ctx, false, idx, &req)?;
+      Some(tamper_cursor(&c, case_no))
+    }
     "wrong_length" => Some("0123456789abcdef0123456789abcdef01234567".into()),
     "nonhex_ascii" => Some("zz".repeat(21)),
     "hex_random" => {
@@ -889,7 +965,7 @@ fn child(args: &Args) -> Result<()> {
 // ------------------------------------------------------------------------------------------------
 
 const DIMS: [(&str, &[&str]); 14] = [
-  ("cursor", &["none", "none", "none", "valid", "wrong_length", "nonhex_ascii", "hex_random", "utf8_odd", "utf8_aligned", "json_garbage", "json_wrong_types", "empty", "deep"]),
+  ("cursor", &["none", "none", "none", "valid", "valid_tampered", "valid_tampered", "wrong_length", "nonhex_ascii", "hex_random", "utf8_odd", "utf8_aligned", "json_garbage", "json_wrong_types", "empty", "deep"]),
   ("query", &["query_string", "match_all", "term", "prefix", "wildcard", "regex", "phrase", "multi_match", "dis_max", "bool",
     "function_score", "script_score", "constant_score", "rank_feature", "legacy_string", "wildcard_dense", "wildcard_only_star",
     "regex_invalid", "regex_nested_quantifiers", "regex_empty", "regex_multibyte", "phrase_no_terms", "phrase_huge_slop",
